@@ -61,6 +61,7 @@ type apObs struct {
 	Fds0    int    `json:"fds0"`   // open file descriptors of the child before its first cell
 	Fds     int    `json:"fds"`    // ... after this cell
 	Skipped bool   `json:"skipped"`
+	Fault   string `json:"fault"` // injected file fault of this run ("" = none): open | close | read<k> | seek<k> | stat
 	Reject  bool   `json:"reject"` // the file holds an entry over the provider's size limit: a clean error is expected
 	OverAt  int    `json:"over_at"` // number of entries in front of the oversize entry (-1: none)
 	lay     apLayout
@@ -71,6 +72,13 @@ type apObs struct {
 	Count     int    `json:"count"`
 	Hist      []int  `json:"hist"`
 	Unknown   int    `json:"unknown"` // acquired items that are no entry of the file
+	// work done on the ammo file(s) by the direct run, as seen by the fs wrapper
+	Rewinds   int `json:"rewinds"` // Seek(0, SeekStart) calls
+	Opens     int `json:"opens"`
+	Closes    int `json:"closes"`
+	Reads     int `json:"reads"`
+	KBytes    int `json:"kbytes"`
+	FaultsHit int `json:"faults_hit"`
 	Variants  int    `json:"variants"` // entries that did not look the same (fingerprint) every time they were delivered
 	Eofs      int    `json:"eofs"`
 	Cancelled bool   `json:"cancelled"`
@@ -91,6 +99,9 @@ type apObs struct {
 	EngWait  bool   `json:"eng_wait"`
 	EngUs    int    `json:"eng_us"`
 	EngTries int    `json:"eng_attempts"`
+	EngRewinds int  `json:"eng_rewinds"`
+	EngOpens   int  `json:"eng_opens"`
+	fault      apFault
 }
 
 func apReadCases(path string) []apCase {
@@ -125,6 +136,7 @@ func ammoprovMain(args []string) {
 	par := fl.Int("par", 4, "child processes in parallel")
 	maxBlocked := fl.Int("maxblocked", 2, "confirmed blocked cells per group before the rest is skipped")
 	osdir := fl.String("osdir", "", "if set: every cell is ALSO run on afero.OsFs with its files under this directory")
+	faults := fl.Bool("faults", true, "a rotating third of the cells is ALSO run with an injected file fault")
 	_ = fl.Parse(args)
 	all := apReadCases(*cases)
 	groups := map[string][]apCase{}
@@ -132,10 +144,20 @@ func ammoprovMain(args []string) {
 	if *osdir != "" {
 		modes = append(modes, "os")
 	}
+	seed0 := 1
+	fmt.Sscan(os.Getenv("VERIF_SEED"), &seed0)
+	total := 0
 	for _, c := range all {
 		for _, m := range modes {
 			k := fmt.Sprintf("%s-%v-%s", c.Kind, c.Preload, m)
 			groups[k] = append(groups[k], c)
+			total++
+		}
+		// fault injection (mem fs + one file fault per cell): a rotating third of the file-backed cells
+		if *faults && c.Kind != "uris" && (c.ID+seed0)%3 == 0 {
+			k := fmt.Sprintf("%s-%v-fault", c.Kind, c.Preload)
+			groups[k] = append(groups[k], c)
+			total++
 		}
 	}
 	keys := []string{}
@@ -180,6 +202,9 @@ func ammoprovMain(args []string) {
 			if strings.HasSuffix(k, "-os") {
 				fsMode, fsDir = "os", *osdir+"/"+k
 			}
+			if strings.HasSuffix(k, "-fault") {
+				fsMode = "fault"
+			}
 			cmd := exec.CommandContext(ctx, self, "ammoprov-child", "-cases", in, "-out", dir+"/"+k+".out",
 				"-hang", hang.String(), "-maxblocked", fmt.Sprint(*maxBlocked), "-fs", fsMode, "-dir", fsDir)
 			cmd.Stderr = os.Stderr
@@ -213,8 +238,8 @@ func ammoprovMain(args []string) {
 	}
 	w.Flush()
 	o.Close()
-	if n != len(all)*len(modes) {
-		fmt.Fprintf(os.Stderr, "ammoprov: %d observations for %d cases\n", n, len(all)*len(modes))
+	if n != total {
+		fmt.Fprintf(os.Stderr, "ammoprov: %d observations for %d runs\n", n, total)
 		os.Exit(3)
 	}
 }
@@ -238,12 +263,12 @@ func ammoprovChild(args []string) {
 	fsDir := fl.String("dir", "", "")
 	_ = fl.Parse(args)
 
-	var fs afero.Fs = afero.NewMemMapFs()
+	var inner afero.Fs = afero.NewMemMapFs()
 	dir := "/c08"
 	if *fsMode == "os" {
 		// what the pandora binary uses: real files (Close is not idempotent, descriptors are a resource,
 		// Seek/Read hit the kernel); the child works inside its own scratch directory
-		fs = afero.NewOsFs()
+		inner = afero.NewOsFs()
 		dir = *fsDir
 		if err := os.MkdirAll(dir, 0o755); err != nil {
 			panic(err)
@@ -252,6 +277,7 @@ func ammoprovChild(args []string) {
 			panic(err)
 		}
 	}
+	fs := &apFs{Fs: inner} // what the providers see: counts the work on the ammo files, injects the cell's fault
 	coreimport.Import(fs)
 	phttpimport.Import(fs)
 	grpcimport.Import(fs)
@@ -285,6 +311,15 @@ func ammoprovChild(args []string) {
 				obs.Reject = true
 			}
 		}
+		if *fsMode == "fault" {
+			opts := []apFault{{"close", 0}, {"read", 1}, {"read", 2}, {"read", 3}, {"seek", 1}, {"seek", 2}, {"open", 0}}
+			if c.Kind == "httpscn" || c.Kind == "grpcscn" {
+				opts = []apFault{{"close", 0}, {"read", 1}, {"read", 2}, {"stat", 0}, {"open", 0}}
+			}
+			obs.fault = opts[(c.ID/3+seed)%len(opts)]
+			obs.Fault = obs.fault.String()
+			obs.lay.Oversize, obs.Reject = 0, false // one deviation at a time
+		}
 		obs.Layout = obs.lay.String()
 		obs.OverAt = -1
 		if obs.lay.Oversize > 0 {
@@ -304,12 +339,12 @@ func ammoprovChild(args []string) {
 			if obs.stuck() {
 				// hang rule: confirm once with a fresh provider
 				second := apObs{apCase: c, Shape: obs.Shape, Via: obs.Via, Hist: make([]int, len(c.W)),
-					Fs: obs.Fs, Layout: obs.Layout, Fds0: obs.Fds0, lay: obs.lay, dir: obs.dir, Reject: obs.Reject, OverAt: obs.OverAt}
+					Fs: obs.Fs, Layout: obs.Layout, Fds0: obs.Fds0, lay: obs.lay, dir: obs.dir, Reject: obs.Reject, OverAt: obs.OverAt, Fault: obs.Fault, fault: obs.fault}
 				apDirect(fs, &second, *hang)
 				second.Attempts = 2
 				obs = second
 			}
-			if c.Cut == 0 && obs.BuildErr == "" && obs.RunClass != "panic" && !obs.stuck() && !obs.Reject {
+			if c.Cut == 0 && obs.BuildErr == "" && obs.RunClass != "panic" && !obs.stuck() && !obs.Reject && obs.Fault == "" {
 				apEngine(fs, &obs, *hang)
 				if !obs.EngRet || !obs.EngWait {
 					apEngine(fs, &obs, *hang)
@@ -321,7 +356,7 @@ func ammoprovChild(args []string) {
 			}
 		}
 		if obs.file != "" {
-			_ = fs.Remove(obs.file)
+			_ = fs.Fs.Remove(obs.file)
 		}
 		obs.Fds = apOpenFds()
 		b, err := json.Marshal(obs)
@@ -379,9 +414,15 @@ func apClass(err error) string {
 }
 
 // apDirect: Provider.Run + nc consumers in Acquire loops.
-func apDirect(fs afero.Fs, obs *apObs, hang time.Duration) {
+func apDirect(fs *apFs, obs *apObs, hang time.Duration) {
 	obs.Attempts = 1
-	conf, err := apConf(fs, obs)
+	conf, err := apConf(fs.Fs, obs) // the driver writes through the inner fs
+	fs.begin(obs.fault)
+	defer func() {
+		st := fs.stats()
+		obs.Rewinds, obs.Opens, obs.Closes, obs.Reads, obs.KBytes, obs.FaultsHit =
+			st.Rewinds, st.Opens, st.Closes, st.Reads, int(st.Bytes/1024), st.Faults
+	}()
 	if err != nil {
 		obs.BuildErr = err.Error()
 		return
@@ -563,10 +604,15 @@ func apDirect(fs afero.Fs, obs *apObs, hang time.Duration) {
 }
 
 // apEngine: a real engine run over the same provider config, counting mock gun, discard aggregator.
-func apEngine(fs afero.Fs, obs *apObs, hang time.Duration) {
+func apEngine(fs *apFs, obs *apObs, hang time.Duration) {
+	defer func() {
+		st := fs.stats()
+		obs.EngRewinds, obs.EngOpens = st.Rewinds, st.Opens
+	}()
 	obs.Eng, obs.EngTries = true, 1
 	obs.EngRet, obs.EngWait, obs.EngClass, obs.EngErr, obs.EngShots = false, false, "", "", 0
-	conf, err := apConf(fs, obs)
+	conf, err := apConf(fs.Fs, obs)
+	fs.begin(apFault{})
 	if err != nil {
 		obs.EngErr = err.Error()
 		return
